@@ -4,7 +4,9 @@
 //
 //	blk   one block of the chain (heights 1..n): `e` (empty) or transactions joined by '+':
 //	      ont.F.T.A / ong.F.T.A (transfer of A units from account F to account T, accounts 0..3, 0 = bookkeeper holding
-//	      the whole ONT supply) and claim.F.A (F claims A units of unbound ONG: transferFrom the ONT contract)
+//	      the whole ONT supply), claim.F.A (F claims A units of unbound ONG: transferFrom the ONT contract) and fan.F.N.A (ONE
+//	      transaction transferring A units of ONT from F to each of N fresh addresses: N > 512 gives a block with more
+//	      than 1024 state-store batch operations)
 //	h     the block whose commit is interrupted (1 <= h, h+2 <= n: two following blocks must exist)
 //	k     WHICH of the three LevelDB batch commits became durable: a subset of {b,e,s} (block, event, state store) written
 //	      `-`, `b`, `e`, `s`, `be`, `bs`, `es`, `bes` (legacy digits 0..3 = `-`, `b`, `be`, `bes`). All 8 subsets are composed
@@ -173,6 +175,14 @@ func parseTx(s string, nonce uint32) (*types.Transaction, error) {
 			return nil, fmt.Errorf("bad tx %q", s)
 		}
 		return ledgerkit.TransferTx(accts[from], addrs[to], f[0], amt, 0, 20000, nonce)
+	case f[0] == "fan" && len(f) == 4:
+		from, e1 := num(f[1])
+		cnt, e2 := num(f[2])
+		amt, e3 := num(f[3])
+		if e1 != nil || e2 != nil || e3 != nil || from >= nAccts || cnt < 1 || cnt > 5000 {
+			return nil, fmt.Errorf("bad tx %q", s)
+		}
+		return ledgerkit.FanTx(accts[from], fmt.Sprint(nonce), int(cnt), amt, nonce)
 	case f[0] == "claim" && len(f) == 3:
 		who, e1 := num(f[1])
 		amt, e2 := num(f[2])
@@ -368,7 +378,7 @@ func parseSpec(hdr string) (sp spec, ok bool) {
 	}
 	tok := func(s string) bool { return s == "all" || digits(s) }
 	var err error
-	if len(f) < 3 || !digits(f[1]) {
+	if len(f) < 2 || !digits(f[1]) {
 		return sp, false
 	}
 	if sp.h, err = strconv.Atoi(f[1]); err != nil {
@@ -389,6 +399,11 @@ func parseSpec(hdr string) (sp spec, ok bool) {
 			}
 			sp.cycles = append(sp.cycles, [2]string{f[i], f[i+1]})
 		}
+	case "RS":
+		if len(f) != 2 {
+			return sp, false
+		}
+		sp.x, sp.tTok = "s", "all"
 	case "RC":
 		if len(f) != 3 || storeDir[f[2]] == "" {
 			return sp, false
@@ -485,7 +500,7 @@ func exec(line string) hx.Result {
 	if len(parts) != 2 {
 		return hx.Result{Out: "bad-op"}
 	}
-	if k := strings.SplitN(strings.SplitN(parts[0], ":", 2)[0], "@", 2)[0]; k != "CR" && k != "RC" && k != "RR" {
+	if k := strings.SplitN(strings.SplitN(parts[0], ":", 2)[0], "@", 2)[0]; k != "CR" && k != "RC" && k != "RR" && k != "RS" {
 		return hx.Result{Out: "bad-op"}
 	}
 	sp, ok := parseSpec(parts[0])
@@ -499,7 +514,7 @@ func exec(line string) hx.Result {
 	}
 	h := sp.h
 	set := sp.set
-	if sp.kind == "RC" {
+	if sp.kind == "RC" || sp.kind == "RS" {
 		set = canonSet(before(srcOrder, sp.x)) // what the real code has committed when the commit of x fails
 	}
 	hasB, hasE, hasS := strings.Contains(set, "b"), strings.Contains(set, "e"), strings.Contains(set, "s")
@@ -560,6 +575,7 @@ func exec(line string) hx.Result {
 		return hx.Result{Out: "compose-failed", Fail: what + ": " + err.Error(), Class: "harness", Kind: "harness-error"}
 	}
 	variant := "composed"
+	stateEarly, earlyDetail := "", ""
 	switch sp.kind {
 	case "CR":
 		if err := ledgerkit.ComposeCrashDir(dir, r.snaps[h-1], r.snaps[h], hasB, hasE, hasS, t); err != nil {
@@ -586,6 +602,30 @@ func exec(line string) hx.Result {
 			return hx.Result{Out: "no-death", Fail: "SubmitBlock succeeded although the " + storeName[sp.x] + " store refuses writes", Class: "harness-no-death", Kind: "harness-error"}
 		}
 		variant = "REAL-death-at-" + storeName[sp.x] + "-commit"
+	case "RS":
+		live := filepath.Join(work, "live")
+		if err := ledgerkit.CopyDir(r.snaps[h-1], live); err != nil {
+			return harnessErr("copy", err)
+		}
+		died, err := ledgerkit.DieAtStateCommit(live, dir, accts[0], r.shc, r.blocks[h])
+		if err != nil {
+			return harnessErr("real death at the state-store commit", err)
+		}
+		if !died {
+			return hx.Result{Out: "no-death", Fail: "SubmitBlock never called the state store's BatchCommit", Class: "harness-no-death", Kind: "harness-error"}
+		}
+		variant = "REAL-death-on-entering-state-commit"
+		// nothing of the state batch may be in the database before the commit call
+		dg, cnt, err := ledgerkit.DumpDB(filepath.Join(dir, ledgerkit.DirState))
+		if err != nil {
+			return harnessErr("dump of the state db at the commit call", err)
+		}
+		now := fmt.Sprintf("%s:%s/%d", ledgerkit.DirState, dg, cnt)
+		stateEarly = "eq"
+		if !strings.Contains(r.dumps[h-1], now) {
+			stateEarly = "ne"
+			earlyDetail = fmt.Sprintf("state db when stateStore.CommitTo is entered: %s, before the block: %s", now, r.dumps[h-1])
+		}
 	case "RR":
 		d1 := filepath.Join(work, "first")
 		if err := ledgerkit.ComposeCrashDir(d1, r.snaps[h-1], r.snaps[h], hasB, hasE, hasS, t); err != nil {
@@ -616,6 +656,12 @@ func exec(line string) hx.Result {
 		}
 	}
 	finish := func() hx.Result {
+		if stateEarly != "" {
+			out = append(out, "statedb="+stateEarly)
+			if stateEarly == "ne" && bad == "" {
+				bad, notes = "early-state-write", earlyDetail
+			}
+		}
 		res := hx.Result{Out: strings.Join(out, " "), Key: line}
 		outcome := "recovered"
 		if bad != "" {
@@ -743,7 +789,12 @@ func trailingOnes(n int) int {
 	return c
 }
 
+var curTier string
+
 func genTx(r *hx.Rand, rich bool) string {
+	if rich && curTier == "thorough" && r.Chance(3) {
+		return fmt.Sprintf("fan.0.%d.1", 520+r.Intn(300)) // > 1024 state-store batch operations in one block
+	}
 	switch r.Intn(10) {
 	case 0, 1, 2, 3:
 		from := 0
@@ -811,6 +862,7 @@ func compositions(r *hx.Rand, tier, chain string, crashable int) []string {
 		for _, x := range []string{"b", "e", "s"} {
 			out = append(out, fmt.Sprintf("%s:%d:%s %s", tagOf("RC"), h, x, chain))
 		}
+		out = append(out, fmt.Sprintf("%s:%d %s", tagOf("RS"), h, chain))
 		// crashes during recovery
 		type c2 struct{ set, t, k, t2 string }
 		var all []c2
@@ -851,9 +903,10 @@ func compositions(r *hx.Rand, tier, chain string, crashable int) []string {
 
 // budget caps the number of real cases of one run (a case costs ~0.3 s: ledger opens on LevelDB directories); the
 // focused search of ./check asks for 20000 cases, everything beyond the cap is the no-op line `NOP`.
-var budget = map[string]int{"quick": 160 * 2, "thorough": 8000}
+var budget = map[string]int{"quick": 166 * 2, "thorough": 8000}
 
 func gen(r *hx.Rand, tier string, i int) string {
+	curTier = tier
 	if i >= budget[tier] {
 		return "NOP"
 	}
@@ -890,6 +943,6 @@ func main() {
 		Init:    initAccts,
 		Isolate: true,
 		Timeout: 120 * 1e9,
-		N:       map[string]int{"quick": 160, "thorough": 2500},
+		N:       map[string]int{"quick": 166, "thorough": 2500},
 	})
 }
